@@ -548,6 +548,21 @@ def extract_rename_app_label_fixed(repo):
     raise ExtractError('the reference rewrite of RenameAppLabel.simulate was not found')
 
 
+def extract_optimizer_copies(repo):
+    """AppMutator._preprocess_mutations rebinds `mutations` to a deep copy before anything else uses it"""
+    tree = ast.parse(_src(repo, 'django_evolution/mutators/app_mutator.py'))
+    cls = _find_class(tree, 'AppMutator')
+    fn = _find_func(cls, '_preprocess_mutations')
+    body = [n for n in fn.body if not (isinstance(n, ast.Expr) and isinstance(n.value, ast.Constant))]
+    if not body:
+        return False
+    first = body[0]
+    return (isinstance(first, ast.Assign) and len(first.targets) == 1 and isinstance(first.targets[0], ast.Name) and
+            first.targets[0].id == 'mutations' and isinstance(first.value, ast.Call) and
+            ast.unparse(first.value.func) == 'copy.deepcopy' and len(first.value.args) == 1 and
+            isinstance(first.value.args[0], ast.Name) and first.value.args[0].id == 'mutations')
+
+
 def regenerate(repo, outdir):
     os.makedirs(outdir, exist_ok=True)
     flags = {}
@@ -577,6 +592,11 @@ def regenerate(repo, outdir):
     parts.append('/-- `QSerialization.child_separators` (django_evolution/serialization.py) -/')
     parts.append('def qSeparators : List (String × String) := ' + lean_list(
         '(%s, %s)' % (lean_str(k), lean_str(v)) for k, v in seps))
+    oc = extract_optimizer_copies(repo)
+    flags['optimizer_copies'] = oc
+    parts.append('')
+    parts.append('/-- AppMutator._preprocess_mutations starts with `mutations = copy.deepcopy(mutations)` -/')
+    parts.append('def optimizerCopies : Bool := ' + ('true' if oc else 'false'))
     ral = extract_rename_app_label_fixed(repo)
     flags['rename_app_label_fixed'] = ral
     parts.append('')
